@@ -7,7 +7,9 @@
     `Columns::write_to` (key = md5 of width ‖ hidden ‖ bestFit): assumed injective (`hkey`);
   * `cs : Codecs` — the XML codecs of font / fill / border / alignment / protection / format code:
     "write, then read" is `some ∘ norm` for an idempotent `norm` (part of the `Codec` structure).
-    That `norm` preserves the effective value of every attribute is checked by the harness only.
+    That `norm` preserves the effective value of every attribute is checked by the harness only —
+    except for the pattern fill, whose codec is also modelled concretely (after fix 90daeac):
+    `C05_pattern_fill_reload`, `C05_pattern_fill_no_merge`.
   `Inv cs ss` is the invariant of a style sheet (Umya/Lemmas/Style.lean); it holds for the style
   sheet of `new_file()` (`C05_init`) and is preserved by `set_style`.
 -/
@@ -180,6 +182,59 @@ def cols4 : List (Col Nat) :=
 example : (mergeCols id (sortCols cols4)).map (fun r => (r.min, r.max)) = [(1, 3), (4, 4)] := by decide
 example : expand (mergeCols id (sortCols cols4)) = sortCols cols4 := by decide
 
+
+/-! ### the pattern-fill codec (after fix 90daeac) -/
+
+/-- **A pattern fill survives save + reload.**  For EVERY pattern fill — any patternType (set or unset,
+    `none` included), any foreground / background colour — what the reader builds from what the writer
+    wrote has the same `patternType` (hence the same effective pattern: no none → solid), and each colour
+    is the colour that was written (`Color.rt`: the attribute the writer prefers, `theme` over `indexed`
+    over `rgb`, and the tint; a colour without any attribute is not written and comes back absent).
+    Before the fix this failed for patternType none / unset with a foreground colour (known findings
+    C05-fill-none-with-fg-reloads-solid, …-merges-with-solid).  The model of `write_to` /
+    `set_attributes` is tied to the code by the harness' save / reload oracle (every attribute compared
+    through the public getters), not by the driver's dump. -/
+theorem C05_pattern_fill_reload (p : PatternFill) :
+    p.norm.patternType = p.patternType ∧ p.norm.effPattern = p.effPattern ∧
+    p.norm.fg = p.fg.bind Color.rt ∧ p.norm.bg = p.bg.bind Color.rt := by
+  simp [PatternFill.norm, PatternFill.read, PatternFill.write, PatternFill.effPattern]
+
+/-- no merge through the codec: two pattern fills that differ in their effective pattern still differ
+    after save + reload (none + colour and solid + the same colour stay apart) -/
+theorem C05_pattern_fill_no_merge (p q : PatternFill) (h : p.effPattern ≠ q.effPattern) :
+    p.norm ≠ q.norm := by
+  intro e
+  apply h
+  have hp := (C05_pattern_fill_reload p).2.1
+  have hq := (C05_pattern_fill_reload q).2.1
+  rw [← hp, ← hq, e]
+
+/-- the concrete codec is a `Codec` in the sense of the interning theorems (`rt = some ∘ norm`, `norm`
+    idempotent): the hypothesis those theorems make about the fill codec holds for this component -/
+def patternFillCodec : Codec PatternFill :=
+  { rt := fun p => some p.norm, norm := PatternFill.norm, rt_eq := fun _ => rfl, idem := PatternFill.norm_idem }
+
+def redFg : Color := { argb := some "FFFF0000".toList }
+def noneRed : PatternFill := { patternType := some "none".toList, fg := some redFg }
+def unsetRed : PatternFill := { fg := some redFg }
+def solidRed : PatternFill := { patternType := some "solid".toList, fg := some redFg }
+
+-- the inputs of the two former findings
+example : noneRed.norm = noneRed ∧ unsetRed.norm = unsetRed ∧ solidRed.norm = solidRed := by decide
+example : noneRed.effPattern ≠ solidRed.effPattern ∧ noneRed.norm ≠ solidRed.norm := by decide
+-- a colour with several attributes comes back with the one the writer prefers; a blank colour is dropped
+example : ({ fg := some { theme := some "1".toList, argb := some "FF000000".toList }, bg := some {} } : PatternFill).norm
+    = { fg := some { theme := some "1".toList } } := by decide
+
+/-- the public setter still applies the auto rule (unchanged API): this is why the reader must not go
+    through it — a reader built on it turns none + colour into solid -/
+theorem C05_setter_auto_solid (c : Color) :
+    (PatternFill.setForegroundColor { patternType := some "none".toList } c).effPattern = "solid".toList ∧
+    (PatternFill.setForegroundColor {} c).effPattern = "solid".toList ∧
+    (PatternFill.setForegroundColor { patternType := some "gray125".toList } c).effPattern = "gray125".toList := by
+  refine ⟨?_, ?_, ?_⟩ <;> simp [PatternFill.setForegroundColor, PatternFill.effPattern] <;> decide
+
+example : (PatternFill.setForegroundColor { patternType := some "none".toList } redFg) = solidRed := by decide
 
 /-- **Tie to the source (T).**  The built-in number-format table the model uses is the one
     `tools/extract_tables.py` regenerated from `FILL_BUILT_IN_FORMAT_CODES` on this run. -/
